@@ -135,7 +135,8 @@ func RunSequences(c *core.Ctx, mode string) {
 	if c.Thorough() {
 		bound = "length <= 4"
 	}
-	c.Rule(OpSequencesDoc + "; bound: every sequence of " + bound + "; observed here: " + side)
+	c.Note("operation_sequences_rule", OpSequencesDoc+"; bound: every sequence of "+bound+"; one case = one sequence; observed here: "+side+
+		"; a failing sequence is reported when no shorter sequence (a subsequence of its predecessors followed by the same operation) fails in the same way; signature = operation kind, predecessor kinds (with the value variant when only some variants fail), what differs")
 	c.Assume("operation sequences: a fresh state is a fresh process (one process per sequence), so that package-level state of generated code and of goa's runtime packages starts initial as well; the state after a prefix is reached by replaying the prefix")
 	c.Assume("operation sequences: observations leave out what legitimately differs between two mounts or two connections: the listener's port (Host, error texts), Date, the WebSocket handshake nonce and its digest; nothing else is normalised")
 	if c.Expired() {
